@@ -131,6 +131,7 @@ def dispatch (j : Json) : Except String Res := do
   | "render" => renderOp j
   | "styleexpr" => styleExprOp j
   | "problem" => problemOp j
+  | "pubfuzz" => pubFuzzOp j
   | "statusline" | "ctline" | "locline" | "headers" => jtpLineOp op j
   | "fetchseq" => fetchSeqOp j
   | "webfinger" => webfingerOp j
